@@ -11,6 +11,8 @@ pub fn units(tier: &str, seed: u64) -> Vec<String> {
         "U:ACS:TERMOSOLAR;P:TERMOSOLAR;U:CAL:RED1",
         "U:ACS:ELECTRICIDAD;P:EL_COGEN;U:COGEN:BIOMASA",
         "U:ILU:ELECTRICIDAD;P:EL_INSITU;U:NEPB:ELECTRICIDAD",
+        // fossil cogeneration whose surplus goes to non-EPB uses and to the grid
+        "U:ACS:ELECTRICIDAD;P:EL_COGEN;U:COGEN:GASNATURAL;U:NEPB:ELECTRICIDAD;U:CAL:BIOMASA",
     ];
     let mut v = vec![];
     for s in shapes {
